@@ -157,7 +157,13 @@ func (w *World) Run(x *simkit.Ctx) {
 		}
 		// a block after ~txper submissions
 		if r.Intn(txper+1) == 0 {
-			return &simkit.Step{Op: "block", A: r.Intn(4)}
+			// B > 0: the slot deadline (or, with C = 1, the shutdown of the node) falls inside the
+			// gathering of this block: the B-th look at the generation context finds it done
+			dl := 0
+			if r.Chance(1, 5) {
+				dl = 1 + r.Intn(2*txper+1)
+			}
+			return &simkit.Step{Op: "block", A: r.Intn(4), B: dl, C: r.Pick(3, 1)}
 		}
 		from := r.Intn(nacc)
 		to := r.Intn(nacc)
@@ -611,7 +617,19 @@ func (e *env) doBlock(st *simkit.Step, reexec int) {
 	}
 	var blk *types.Block
 	var genErr, addErr error
-	pan := catch(func() { blk, genErr, addErr = prod.Produce(context.Background(), ts) })
+	var gctx context.Context = context.Background()
+	if st.B > 0 {
+		cause := context.DeadlineExceeded
+		if st.C == 1 {
+			cause = context.Canceled
+		}
+		gctx = &countdownCtx{Context: context.Background(), left: st.B, cause: cause}
+		x.Fault("generation-context-done-during-gather")
+	}
+	pan := catch(func() { blk, genErr, addErr = prod.Produce(gctx, ts) })
+	if cc, ok := gctx.(*countdownCtx); ok && cc.left <= 0 {
+		x.Probe("deadline-hit-while-candidates-remained")
+	}
 	if pan != "" || genErr != nil || addErr != nil {
 		msg := fmt.Sprintf("panic=%q gen=%v add=%v", firstLine(pan), genErr, addErr)
 		x.Logf("produce failed: %s", msg)
@@ -906,4 +924,31 @@ func (e *env) checkHistoryC04() {
 
 func init() {
 	simkit.Register("exec", func(scratch string, t *testing.T) simkit.World { return &World{Scratch: scratch} })
+}
+
+// countdownCtx is a block-generation context under the simulator's control: it is found done
+// (deadline passed / node shutting down) at the left-th look at it, whatever the wall clock says.
+type countdownCtx struct {
+	context.Context
+	left  int
+	cause error
+}
+
+var closedCh = func() chan struct{} { c := make(chan struct{}); close(c); return c }()
+
+func (c *countdownCtx) Done() <-chan struct{} {
+	if c.left > 0 {
+		c.left--
+	}
+	if c.left <= 0 {
+		return closedCh
+	}
+	return nil // a nil channel is never ready: "not done yet"
+}
+
+func (c *countdownCtx) Err() error {
+	if c.left <= 0 {
+		return c.cause
+	}
+	return nil
 }
